@@ -1,5 +1,7 @@
 //! C12: reciprocal — executor and generator
+use crate::c01::with_prim;
 use crate::c06::MODES;
+use bigdecimal::num_traits::ToPrimitive;
 use crate::c10::ctx;
 use crate::gen::*;
 use crate::rng::Rng;
@@ -20,6 +22,21 @@ pub fn exec(op: &str, args: &[&str]) -> String {
             let x = a.inverse_with_context(&ctx(args[1], args[2]));
             let y = (-a).inverse_with_context(&ctx(args[1], args[3]));
             format!("{}|{}", show(&x), show(&y))
+        }
+        "oneover" => {
+            // `1 / x` with a primitive one routes to inverse() (src/impl_ops.rs)
+            let a = parse_dec(args[1]).expect("a");
+            let (pt, own) = args[0].split_once(':').expect("form");
+            let one = BigInt::from(1);
+            let r = match (pt, own) {
+                ("f32", "val") => 1.0f32 / a.clone(),
+                ("f32", "ref") => 1.0f32 / &a,
+                ("f64", "val") => 1.0f64 / a.clone(),
+                ("f64", "ref") => 1.0f64 / &a,
+                (_, "val") => with_prim!(pt, one, |p| p / a.clone()),
+                (_, _) => with_prim!(pt, one, |p| p / &a),
+            };
+            show(&r)
         }
         _ => panic!("C12: unknown op {}", op),
     }
@@ -53,7 +70,14 @@ pub fn generate(rng: &mut Rng, tier: &str, shard: usize, nshards: usize, out: &m
         let a = dec(if rng.chance(1, 2) { -v } else { v }, scale);
         let (mn, _) = *rng.pick(MODES);
         let do_mirror = rng.chance(1, 6);
+        let one_form = if rng.chance(1, 12) {
+            let pt = *rng.pick(&["u8", "u16", "u32", "u64", "u128", "i8", "i16", "i32", "i64", "i128", "f32", "f64"]);
+            Some(format!("{}:{}", pt, if rng.chance(1, 2) { "val" } else { "ref" })) } else { None };
         if !keep { continue; }
+        if let Some(f) = one_form {
+            out(format!("C12\toneover\t{}\t{}\t{}", f, show(&a), show(&guess_of(&a))));
+            continue;
+        }
         if do_mirror { out(format!("C12\tmirror\t{}\t{}\t{}\t{}", show(&a), p, mn, mirror(mn))); }
         else { out(format!("C12\tinv\t{}\t{}\t{}\t{}", show(&a), p, mn, show(&guess_of(&a)))); }
     }
